@@ -580,10 +580,12 @@ func c20Wrap(c *Ctx, f *ssa.Function) {
 		})
 		// the element whose Wrap is called in the loop: mws[indexExpr]
 		var indexExpr ssa.Value
+		rotated := false
 		for b := range body {
 			for _, in := range b.Instrs {
 				if ia, ok := in.(*ssa.IndexAddr); ok && ia.X == ssa.Value(mws) {
 					indexExpr = ia.Index
+					rotated = b == head // the element is read before the test at the end of the head block
 				}
 			}
 		}
@@ -606,7 +608,47 @@ func c20Wrap(c *Ctx, f *ssa.Function) {
 			}
 			p, ok := evalSmall(entryV, env, 0)
 			var seq []int64
-			for steps := int64(0); ok && steps <= n+1; steps++ {
+			if rotated {
+				// `for i := range n` as go/ssa builds it: a guard in front of
+				// the loop, the body first, the test of the *next* value at
+				// the bottom of the same block
+				entered := true
+				for _, pb := range head.Preds {
+					if body[pb] {
+						continue
+					}
+					if gif, isIf := pb.Instrs[len(pb.Instrs)-1].(*ssa.If); isIf {
+						gv, okG := evalSmall(gif.Cond, env, 0)
+						if !okG {
+							ok = false
+						}
+						entered = (gv != 0) == (pb.Succs[0] == head)
+					}
+				}
+				for steps := int64(0); ok && entered && steps <= n+1; steps++ {
+					env[idx] = p
+					iv, okI := evalSmall(indexExpr, env, 0)
+					if !okI {
+						ok = false
+						break
+					}
+					seq = append(seq, iv)
+					cv, okC := evalSmall(hif.Cond, env, 0)
+					if !okC {
+						ok = false
+						break
+					}
+					cont := cv != 0
+					if !body[hif.Block().Succs[0]] {
+						cont = !cont
+					}
+					if !cont {
+						break
+					}
+					p, ok = evalSmall(backV, env, 0)
+				}
+			}
+			for steps := int64(0); !rotated && ok && steps <= n+1; steps++ {
 				env[idx] = p
 				cv, okC := evalSmall(hif.Cond, env, 0)
 				if !okC {
@@ -657,8 +699,29 @@ func c20Wrap(c *Ctx, f *ssa.Function) {
 				okAcc = false
 			}
 		}
+		var backAcc ssa.Value
+		for i, e := range acc.Edges {
+			if body[head.Preds[i]] {
+				backAcc = e
+			}
+		}
 		for _, ret := range core.Returns(f) {
-			okAcc = okAcc && ret.Results[0] == ssa.Value(acc)
+			r := ret.Results[0]
+			if r == ssa.Value(acc) {
+				continue
+			}
+			// a rotated loop leaves through a phi of "never entered" (h) and
+			// the chain built by the last iteration
+			phi, isPhi := r.(*ssa.Phi)
+			if !isPhi {
+				okAcc = false
+				continue
+			}
+			for _, e := range phi.Edges {
+				if e != ssa.Value(h) && e != backAcc && e != ssa.Value(acc) {
+					okAcc = false
+				}
+			}
 		}
 	}
 	c.check(okAcc, "C20.wrap.order", f, "wrapped = middlewares[i].Wrap(wrapped), starting from h, returned at the end", nil, "each middleware wraps the chain built so far")
